@@ -1,5 +1,6 @@
 import Qx.Proofs.Codec
 import Qx.Xml.Codec.Classes
+import Qx.Xml.Codec.Literals
 /-!
 # C01, tier C — schema-driven codecs lose nothing
 
@@ -117,6 +118,33 @@ theorem wf_StanzaError : StanzaError.WF := by decide
 theorem wf_MucItem : MucItem.WF := by decide
 theorem wf_MucAdminIq : MucAdminIq.WF := by decide
 theorem wf_JingleReason : JingleReason.WF := by decide
+theorem wf_IbbDataIq : IbbDataIq.WF := by decide
+theorem wf_HashUsed : HashUsed.WF := by decide
+theorem wf_MamResultIq : MamResultIq.WF := by decide
+theorem wf_RosterItem : RosterItem.WF := by decide
+theorem wf_RosterIq : RosterIq.WF := by decide
+theorem wf_DataForm : DataForm.WF := by decide
+theorem wf_MucOwnerIq : MucOwnerIq.WF := by decide
+theorem wf_DiscoInfoIq : DiscoInfoIq.WF := by decide
+theorem wf_DiscoItemsIq : DiscoItemsIq.WF := by decide
+theorem wf_VCardAddress : VCardAddress.WF := by decide
+theorem wf_VCardEmail : VCardEmail.WF := by decide
+theorem wf_VCardPhone : VCardPhone.WF := by decide
+
+/-! ## tie of the hand-written schemas to the C++ source (literal drift) -/
+
+/-- **Every tag / attribute name and namespace of every schema occurs in the bodies of the class's `toXml` and
+`parse`/`fromDom`, and every string literal and `ns_*` constant of those bodies is accounted for by the schema** (or by
+the explicit per-class exceptions of `Qx/Xml/Codec/Literals.lean`).  The literals are regenerated from /repo's working
+tree by translators/codec_literals.py on every check run: a renamed attribute, a new or dropped field or a changed
+namespace makes this obligation fail. -/
+theorem codec_literals_tied : Literals.checkAll = true := by decide +kernel
+
+/-- the check can fail: the schema of `<a h=…/>` against a source that calls the attribute `hh` or adds one -/
+example : Literals.checkWith ["a", "hh"] ["ns_stream_management"] {} SmAck = false := by decide +kernel
+example : Literals.checkWith ["a", "h", "extra"] ["ns_stream_management"] {} SmAck = false := by decide +kernel
+example : Literals.checkWith ["a", "h"] ["ns_sasl"] {} SmAck = false := by decide +kernel
+example : Literals.checkWith ["a", "h"] ["ns_stream_management"] {} SmAck = true := by decide +kernel
 
 /-! ## non-vacuity: concrete values meeting the hypotheses -/
 
